@@ -14,7 +14,7 @@ from .driver import Program, pack
 from .pp import *
 
 
-def shape_n(pid, macro, profile, gates, seed, heavy=False, cheap_later=False, athen=False):
+def shape_n(pid, macro, profile, gates, seed, heavy=False, cheap_later=False, athen=False, sstep=False):
     is_async, is_try, is_spawn = KINDS[macro]
     carrier = "res" if is_try else "raw"
     styles = {}
@@ -29,13 +29,15 @@ def shape_n(pid, macro, profile, gates, seed, heavy=False, cheap_later=False, at
     from . import profiles as _pf
     _pf.STRIDE = 24 if max(profile) > 6 else 12
     try:
-        return _shape_n(pid, macro, profile, gates, seed, heavy, cheap_later, styles, is_async, is_try, is_spawn, carrier)
+        return _shape_n(pid, macro, profile, gates, seed, heavy, cheap_later, styles, is_async, is_try, is_spawn, carrier, sstep)
     finally:
         _pf.STRIDE = 12
 
 
-def _shape_n(pid, macro, profile, gates, seed, heavy, cheap_later, styles, is_async, is_try, is_spawn, carrier):
+def _shape_n(pid, macro, profile, gates, seed, heavy, cheap_later, styles, is_async, is_try, is_spawn, carrier, sstep=False):
     pp = PP(macro, profile, carrier=carrier, can_fail=is_try, gates=gates, styles=styles)
+    if sstep:
+        pp.step_fn = "sstep"
     text = pp.text()
     msg = lambda t: "\"C09[%s]: %s\"" % (pid, t)
     L = [pp.decls(), "let mut fut = %s;" % text]
@@ -186,7 +188,9 @@ def programs_nf(tier, seed):
                   ("join_async_spawn", (1, 1), 1, False, False), ("try_join_async_spawn", (1, 1), 1, False, False), ("join_async", (2, 1), 1, False, True),
                   ("join_async", (1,), 1, False, False), ("join_async", (2, 2), 1, False, "athen"),
                   # many steps: completion and wake-ups do not depend on how many steps there are (two-digit step numbers included)
-                  ("join_async", (10,), 1, True, True), ("try_join_async", (9, 10), 1, True, True)]
+                  ("join_async", (10,), 1, True, True), ("try_join_async", (9, 10), 1, True, True),
+                  # two branches with REAL pending points in both steps (hand-written step futures instead of async fns)
+                  ("join_async", (2, 2), 1, True, "sstep")]
         plan_f = [("join_async", 2, False), ("try_join_async", 2, False)]
     else:
         plan_n = [("join_async", (1, 1), 2, False, False), ("try_join_async", (1, 1), 2, False, False), ("join_async", (1, 1, 1), 2, True, False), ("try_join_async", (1, 1, 1), 1, True, False),
@@ -196,11 +200,12 @@ def programs_nf(tier, seed):
                   ("join_async", (1,), 2, False, False), ("join_async", (2,), 1, False, False),
                   ("join_async", (2, 2), 1, True, "athen"), ("join_async_spawn", (2, 2), 1, True, "athen"), ("try_join_async", (2, 2), 1, True, False), ("join_async", (1, 2, 2), 1, True, "athen"),
                   # (measured: (2, 2) with real pending points in both later steps exceeds the 12 GB cap; (11, 9) under join_async_spawn! does not finish in 1200 s)
-                  ("join_async", (10,), 1, True, True), ("try_join_async", (9, 10), 1, True, True), ("join_async", (12, 3, 12), 1, True, True)]
+                  ("join_async", (10,), 1, True, True), ("try_join_async", (9, 10), 1, True, True), ("join_async", (12, 3, 12), 1, True, True),
+                  ("join_async", (2, 2), 2, True, "sstep"), ("try_join_async", (2, 2), 1, True, "sstep"), ("join_async_spawn", (2, 2), 1, True, "sstep"), ("join_async", (2, 3, 2), 1, True, "sstep")]
         plan_f = [("join_async", 2, False), ("try_join_async", 2, False), ("join_async", 3, True), ("try_join_async", 3, True)]
     for macro, prof, gates, heavy, cheap in plan_n:
         i += 1
-        ps.append(shape_n("p%04d" % i, macro, prof, gates, seed, heavy=heavy, cheap_later=(cheap is True), athen=(cheap == "athen")))
+        ps.append(shape_n("p%04d" % i, macro, prof, gates, seed, heavy=heavy, cheap_later=(cheap is True), athen=(cheap == "athen"), sstep=(cheap == "sstep")))
     for macro, nb, heavy in plan_f:
         i += 1
         ps.append(shape_f("p%04d" % i, macro, nb, seed, heavy=heavy))
